@@ -41,7 +41,11 @@ RULE = ("seeded symmetric distance matrices (n=2..12, small integers so ties are
         "through to_newick/from_newick (with injected whitespace, with/without distances, plus mutated strings), "
         "get_distance/distance_to/lowest_common_ancestor, as_binary and copy; op by op against the Lean model; "
         "accessor stream (oracle only): everything a Tree/TreeNode hands out is scribbled over and the tree re-checked "
-        "against a snapshot. "
+        "against a snapshot; every valid matrix in ~15 memory layouts/dtypes must give the same tree; api stream (reuse "
+        "of one object, Tree vs TreeNode level of every optional parameter incl. round_distance, NumPy scalar/negative "
+        "indices, label containers, eq/hash under child permutation, as_graph, node properties); refused stream (a "
+        "raising call changes neither tree nor arguments); huge finite entries, wrong shapes and a 300000-deep tree in a "
+        "forked child. "
         "non-trivial = >= 3 leaves or an error branch; distinct = different op lines / oracle payload")
 TRUSTED = ["float32 arithmetic of upgma/nj modelled as exact rational arithmetic (the exact stream is built so that "
            "no rounding occurs; the float stream is judged by the oracle with a tolerance)",
